@@ -25,8 +25,13 @@ def shapes(p, rng, quick):
         S.append(["cell_to_boundary", "%016x" % c, opts[n]])
     c = a5.lonlat_to_cell((5.0, 5.0), 7)
     S.append(["compact", ["%016x" % x for x in ser.cell_to_children(c)]])
+    S.append(["uncompact", ["%016x" % c, "%016x" % ser.cell_to_parent(c)], 8])
+    S.append(["cell_to_children", "%016x" % c, 9])
+    S.append(["cell_to_parent", "%016x" % c, 3])
     if not quick:
-        S.append(["uncompact", ["%016x" % c], 9])
+        S.append(["get_res0_cells"])
+        S.append(["cell_area", 7])
+        S.append(["hex_to_u64", "%016x" % c])
     return S
 
 
